@@ -205,17 +205,28 @@ def find_best_match(abbr: str, items: list, min_score=0, partial_match=False):
     """
     max_score = 0
     matched_item = None
+    direct_hit = None
 
     for item in items:
         score = calculate_score(abbr, get_scoring_part(item), partial_match)
 
         if score == 1:
-            # direct hit, no need to look further
-            return item
+            if get_scoring_part(item) == abbr:
+                # direct hit, no need to look further
+                return item
+
+            # NB: score is case-insensitive: same letters in another case (user
+            # snippet `POS` for `pos`) must not hide item typed exactly
+            if direct_hit is None:
+                direct_hit = item
+            continue
 
         if score and score >= max_score:
             max_score = score
             matched_item = item
+
+    if direct_hit is not None:
+        return direct_hit
 
     return matched_item if max_score >= min_score else None
 
